@@ -660,18 +660,7 @@ fn oracle_svd_solve_rd(bf: &Rows, cf: &Rows, b: &Rows, w32: bool, rt: &mut Ratio
         Ok(xfull) => {
             let x = top_rows(&xfull, n);
             if !all_finite(&x) {
-                // KNOWN_FINDINGS id=svd-rankdef-underflow-nan: exact rank deficiency, non-finite result, and the
-                // returned singular values decay into the subnormal range
-                let tiny = if w32 { 1e-30 } else { 1e-250 };
-                let underflow = match svd_run(&a, w32) {
-                    Ok(o) => o.s.len() > 0 && o.s.iter().any(|s| *s > 0.0 && *s < tiny * o.s[0]),
-                    Err(_) => false,
-                };
-                if underflow {
-                    v.push(("known:svd-rankdef-underflow-nan".into(), format!("svd_solve of an exactly rank-{} {}x{} {} matrix returned non-finite entries (singular values decay into the subnormal range)", cf.len(), a.len(), n, wname(w32))));
-                } else {
-                    v.push(("svd_solve_rankdef".into(), "solution has non-finite entries".into()));
-                }
+                v.push(("svd_solve_rankdef".into(), "solution has non-finite entries".into()));
                 return v;
             }
             normal_eq(&mut v, rt, "svd_solve_rankdef_lsq", &a, &x, b, eps_of(w32));
@@ -1044,6 +1033,30 @@ fn regression_corpus(out: &mut Out, rt: &mut Ratios) {
             run_case(out, rt, json!({"entry": "chol_neg", "a": a, "f32": w32, "corpus": "D3"}), "corpus:D3", true);
         }
     }
+    // fixed 6e06fa0: exactly rank-1 matrices with many null directions (singular values decay into the
+    // subnormal range; 1/g overflowed and U, V, the solution were NaN)
+    {
+        let u15: Vec<f64> = vec![0., -2., 3., -3., -2., -3., 2., 3., -2., 1., -2., -1., -1., -1., -1.];
+        let v9: Vec<f64> = vec![3., 3., 2., 0., -2., 1., 1., 2., 3.];
+        let bf: Rows = u15.iter().map(|x| vec![*x]).collect();
+        let cf: Rows = vec![v9.clone()];
+        let a = matmul(&bf, &cf);
+        let b: Rows = (0..15).map(|i| vec![((i * 7) % 5) as f64 - 2.0, 1.0]).collect();
+        run_case(out, rt, json!({"entry": "svd", "a": a, "f32": true, "corpus": "6e06fa0"}), "corpus:svd_underflow", true);
+        run_case(out, rt, json!({"entry": "svd_solve_rd", "a": a, "bfac": bf, "cfac": cf, "b": b, "f32": true, "corpus": "6e06fa0"}), "corpus:svd_underflow", true);
+        for &(m, n) in &[(38usize, 35usize), (40, 38), (40, 40)] {
+            let bf: Rows = (0..m).map(|i| vec![((i * 5 + 1) % 7) as f64 - 3.0]).collect();
+            let cf: Rows = vec![(0..n).map(|j| ((j * 3 + 2) % 7) as f64 - 3.0).collect()];
+            let bf: Rows = bf.iter().map(|r| vec![if r[0] == 0.0 { 2.0 } else { r[0] }]).collect();
+            let cf: Rows = vec![cf[0].iter().map(|x| if *x == 0.0 { -1.0 } else { *x }).collect()];
+            let a = matmul(&bf, &cf);
+            let b: Rows = (0..m).map(|i| vec![((i * 7) % 5) as f64 - 2.0]).collect();
+            for w32 in [false, true] {
+                run_case(out, rt, json!({"entry": "svd", "a": a, "f32": w32, "corpus": "6e06fa0"}), "corpus:svd_underflow", true);
+                run_case(out, rt, json!({"entry": "svd_solve_rd", "a": a, "bfac": bf, "cfac": cf, "b": b, "f32": w32, "corpus": "6e06fa0"}), "corpus:svd_underflow", true);
+            }
+        }
+    }
     // the crate's own test matrices, checked against the definition instead of abs() of hard-coded factors
     let t: Rows = vec![vec![1., 2., 3.], vec![0., 1., 5.], vec![5., 6., 0.]];
     run_case(out, rt, json!({"entry": "lu", "a": t, "f32": false}), "corpus:unit", true);
@@ -1308,6 +1321,23 @@ fn correspondence(out: &mut Out, rng: &mut Rng, thorough: bool) {
                 let tol = if w32 { 1e-2 } else { 1e-7 };
                 out.corr("qr_solve", format!("corr_qr_solve {} {} {} {} {} {} {} {} {}", w, coq_n(m), coq_n(n), coq_n(bn), coq_rows(&a), coq_rows(&b), coq_f64(tol), coq_f64(xs), opt_rows(x.as_ref())),
                          json!({"a": a, "b": b, "f32": w32, "family": fam}));
+            }
+        }
+        // ---- SVD of an exactly rank-1 f32 matrix with >= 7 null directions: the singular values decay into the
+        //      subnormal range and the `|g| >= min_positive` guards decide (only s and the leading column are determined)
+        if rep % 8 == 1 {
+            let n = rng.usize_in(8, 9);
+            let m = rng.usize_in(n, 10);
+            let nz = |rng: &mut Rng| { let v = rng.int(1, 3) as f64; if rng.bool() { v } else { -v } };
+            let u: Vec<f64> = (0..m).map(|_| nz(rng)).collect();
+            let vv: Vec<f64> = (0..n).map(|_| nz(rng)).collect();
+            let a: Rows = (0..m).map(|i| (0..n).map(|j| u[i] * vv[j]).collect()).collect();
+            if let Ok(o) = svd_run(&a, true) {
+                let reached = o.s.iter().any(|x| *x > 0.0 && *x < 1.2e-38);
+                out.count(if reached { "corr:svd_rank1:subnormal_reached" } else { "corr:svd_rank1:subnormal_not_reached" });
+                out.corr("svd_rank1", format!("corr_svd true {} {} {} {} {} {} {} {} {}", coq_n(m), coq_n(n), coq_n(1), coq_rows(&a), coq_f64(2e-3), coq_f64(o.s[0]),
+                                              coq_rows(&o.u), coq_list_f64(&o.s), coq_rows(&o.v)),
+                         json!({"a": a, "f32": true}));
             }
         }
         // ---- SVD: whole routine (tolerance), solve and tail on the implementation's own factors (exact) ----
